@@ -567,6 +567,10 @@ impl Pool for PoolImpl {
             }
             return;
         }
+        if *parent_slot < self.first_unpruned_slot() {
+            // a pruned parent can no longer receive a certificate, nothing to wait for
+            return;
+        }
         let waiting = self.s2n_waiting_parent_cert.entry(parent_id).or_default();
         if !waiting.contains(&block_id) {
             waiting.push(block_id);
